@@ -58,11 +58,11 @@ def check(tc, src, route, k, j, ev, h):
                 ev.classes["build_failed"] += 1
                 return None, False
             r0, _, _ = run_with_fd3([exe], wd, {"ALDOR_VERIF_GC": "never"}, 60)
-            r1, forced, allocs = run_with_fd3([exe], wd, {"ALDOR_VERIF_GC": sched}, 600, nofile=NOFILE)
+            r1, forced, allocs = run_with_fd3([exe], wd, {"ALDOR_VERIF_GC": sched}, 150, nofile=NOFILE)
         else:
             argv = aldor.aldor_cmd(tc, "aldor", ["-Q1", "-Ginterp"], ["p.as"])
             r0, _, _ = run_with_fd3(aldor.aldor_cmd(tc, "aldor", ["-Q1", "-Wno-gc", "-Ginterp"], ["p.as"]), wd, {}, 60)
-            r1, forced, allocs = run_with_fd3(argv, wd, {"ALDOR_VERIF_GC": sched}, 600, nofile=NOFILE)
+            r1, forced, allocs = run_with_fd3(argv, wd, {"ALDOR_VERIF_GC": sched}, 150, nofile=NOFILE)
         if r0.cpu_hit or aldor.has_error(r0.text()) or (route == "interp" and aldor.has_fault(r0)):
             ev.classes["reference_unusable"] += 1
             return None, False
@@ -119,7 +119,7 @@ def check_scale(tc, shape, n, m, route, k, ev):
             if fr is not None:
                 return Fail({"kind": "build-failed", "route": route, "shape": shape, "what": "scale program does not build: %s" % fr.text()[-200:]}, case), False
             r0, _, _ = run_with_fd3([exe], wd, {"ALDOR_VERIF_GC": "never"}, 120)
-            r1, forced, allocs = run_with_fd3([exe], wd, {"ALDOR_VERIF_GC": sched}, 600, nofile=NOFILE)
+            r1, forced, allocs = run_with_fd3([exe], wd, {"ALDOR_VERIF_GC": sched}, 150, nofile=NOFILE)
         else:
             r0, _, _ = run_with_fd3(aldor.aldor_cmd(tc, "aldor", ["-Q1", "-Wno-gc", "-Ginterp"], ["p.as"]), wd, {}, 300)
             r1, forced, allocs = run_with_fd3(aldor.aldor_cmd(tc, "aldor", ["-Q1", "-Ginterp"], ["p.as"]), wd, {"ALDOR_VERIF_GC": sched}, 900, nofile=NOFILE)
